@@ -17,3 +17,20 @@ Qed.
 (* C04: FullMultiplicativeForm with no maximise criterion carries an offset of 1 *)
 Theorem fmf_allmin_offset : forall objs, has_max objs = false -> fmf_offset objs == 1.
 Proof. intros objs H. unfold fmf_offset. rewrite H. reflexivity. Qed.
+
+(* C14 (repaired by a fix: commit): the arithmetic filters picked the columns with a membership
+   mask in MATRIX order while the thresholds stayed in the order the conditions were written *)
+From SKC Require Import Model.Select Model.Filters.
+Definition make_mask_matrix_order (crits : list Z) (conds : list (Z * cond)) (rows : list (list Q)) : list bool :=
+  let present := filter (fun p => match index_of (fst p) crits with Some _ => true | None => false end) conds in
+  let names := map fst present in
+  let idxs := filter (fun j => existsb (Z.eqb (nth j crits 0%Z)) names) (seq 0 (length crits)) in
+  map (fun r => forallb (fun xc => sat (snd (snd xc)) (fst xc))
+                        (combine (map (fun j => nth j r 0) idxs) present)) rows.
+
+Theorem arith_mask_matrix_order_refuted :
+  exists crits conds rows,
+    make_mask_matrix_order crits conds rows <> map (survives crits conds) rows.
+Proof.
+  exists [1; 2]%Z, [(2%Z, CGt 27); (1%Z, CGt 1)], [[7; 35]]. vm_compute. discriminate.
+Qed.
